@@ -190,9 +190,13 @@ class _SchemaDirectivesApplicationVisitor(SchemaVisitor):
         # Make sure the schema has all the definitions, and the types of their
         # arguments as it would had they been part of the document.
         schema.directives.update({n: d for n, (d, _) in self._defs.items()})
-        _build_type_map(
-            [], [d for d, _ in self._defs.values()], _type_map=schema.types
+        argument_types = _build_type_map(
+            [], [d for d, _ in self._defs.values()], _type_map={}
         )
+        for name, type_ in argument_types.items():
+            # Types the schema already knows are referred to by name, the
+            # schema may hold another object for them (e.g. once extended).
+            schema.types.setdefault(name, type_)
         schema._invalidate_and_rebuild_caches()
 
         for sd in self._collect_schema_directives(schema, "SCHEMA"):
